@@ -168,7 +168,7 @@ def applicable_concs(inst):
 
 
 # ------------------------------------------------------------------ real runs
-def run_real(inst, conc, variant, segments, x_start=None, y_start=None, pass_state=True, rec_state=False):
+def run_real(inst, conc, variant, segments, x_start=None, y_start=None, pass_state=True, default_steps=False):
     """Run the real solver of `inst` for sum(segments) iterations, as len(segments) consecutive calls.
 
     variant: 'opt' (the solver) | 'simple' (the `_simple` sibling).
@@ -218,9 +218,17 @@ def run_real(inst, conc, variant, segments, x_start=None, y_start=None, pass_sta
                 kw = {}
                 if y is not None:
                     kw = {'x_relax': xr, 'y': y}
-                S.pdhg(x, P.f, P.gs[0], P.Ls[0], seg, tau=P.tau, sigma=P.sig[0], theta=P.th, callback=rec, **kw)
+                if default_steps:      # pdhg_stepsize: tau = sigma = sqrt(0.9) / |L|
+                    np.random.seed(12345)
+                    S.pdhg(x, P.f, P.gs[0], P.Ls[0], seg, theta=P.th, callback=rec, **kw)
+                else:
+                    S.pdhg(x, P.f, P.gs[0], P.Ls[0], seg, tau=P.tau, sigma=P.sig[0], theta=P.th, callback=rec, **kw)
             elif sol == 'dr':
-                S.douglas_rachford_pd(x, P.f, P.gs, P.Ls, seg, tau=P.tau, sigma=P.sig, callback=rec, lam=P.th)
+                if default_steps:      # douglas_rachford_pd_stepsize
+                    np.random.seed(12345)
+                    S.douglas_rachford_pd(x, P.f, P.gs, P.Ls, seg, callback=rec, lam=P.th)
+                else:
+                    S.douglas_rachford_pd(x, P.f, P.gs, P.Ls, seg, tau=P.tau, sigma=P.sig, callback=rec, lam=P.th)
             elif sol == 'fb':
                 S.forward_backward_pd(x, P.f, P.gs, P.Ls, P.h, P.tau, P.sig, seg, callback=rec)
             elif sol in ('pg', 'apg'):
@@ -321,7 +329,10 @@ def box_infeasibility(fr, z):
     return float(np.linalg.norm(np.maximum(a - z, 0) + np.maximum(z - b, 0)))
 
 
-def kkt_residual(inst, x, ys=None):
+KKT_DELTA = 2.0 ** -5      # kink tolerance (relative to max(1, |z|_inf)) of the sub-differential distance
+
+
+def kkt_residual(inst, x, ys=None, rel_delta=None):
     """Distance from the first-order optimality conditions of  min f(x) + h(x) + sum g_i(L_i x):
         min over y_i in dg_i(L_i x) of dist(-grad h(x) - sum L_i^T y_i, df(x))  + infeasibility,
     computed from L, L^T and the sub-differentials (a small bounded least-squares problem);
@@ -329,8 +340,9 @@ def kkt_residual(inst, x, ys=None):
     from scipy.optimize import lsq_linear
     x = np.asarray(x, dtype=float)
     Ms = [mat(M) for M in inst['Ls']]
+    rel_delta = KKT_DELTA if rel_delta is None else rel_delta
     scale = max(1.0, float(np.max(np.abs(x))))
-    delta = 1e-7 * scale
+    delta = rel_delta * scale
     flo, fhi = _subdiff_box(inst['f'], x, delta)
     hg = np.zeros(len(x))
     if inst['h']['k'] == 'L2sq':
@@ -340,7 +352,7 @@ def kkt_residual(inst, x, ys=None):
     glo, ghi = [], []
     for M, g in zip(Ms, inst['gs']):
         z = M.dot(x)
-        lo, hi = _subdiff_box(g, z, 1e-7 * max(1.0, float(np.max(np.abs(z)))))
+        lo, hi = _subdiff_box(g, z, rel_delta * max(1.0, float(np.max(np.abs(z)))))
         glo.append(lo)
         ghi.append(hi)
         infeas += box_infeasibility(g, z)
@@ -439,6 +451,9 @@ def rel_desc(rnd, solver, fk, gk):
         d['tau'] = 2.0 ** -(math.ceil(math.log2(fro2 + 1)) + rnd.randint(0, 1))
         if solver == 'sd':
             d['tau'] /= 2
+        M0 = d['Ms'][0][0]
+        if all(sum(a * v for a, v in zip(row, d['x0'])) == bi for row, bi in zip(M0, d['b'])):
+            d['b'][0] += 1          # never start at an exact solution (steepest_descent would return at once)
     if solver == 'mlem':
         d['Ms'] = [[[[rnd.randint(0, 3) for _ in range(n)] for _ in range(m)]]]
         for r in d['Ms'][0][0]:
